@@ -522,6 +522,7 @@ class ILTTranslation:
         F = 'lcapy/inverse_laplace.py'
         fn = find_method(self.ilt, 'do_damped_sin', F)
         self.ds = {}
+        self.ds_guard_omega1 = False
         self.ds_line = fn.lineno
         for k in (1, 2, 3):
             ev = Ev(F)
@@ -571,6 +572,10 @@ class ILTTranslation:
                 if len(s.body) == 1 and un(s.body[0]).startswith('warn(') and not s.orelse:
                     return None
                 fail(s, 'unexpected body', F)
+            if t == 'omega1 == 0' and not s.orelse and len(s.body) == 1 and nz(un(s.body[0])) == nz('return self.ratfun(expr.expr, s, t)'):
+                # critically damped: handed back to the general path (no damped_sin keyword => no recursion)
+                self.ds_guard_omega1 = True
+                return None
             if isinstance(s.test, ast.Compare) and un(s.test.left) == 'len(ncoeffs)' and isinstance(s.test.ops[0], ast.Eq):
                 n = ev.ev(s.test.comparators[0], env)
                 if n[0] != 'int':
